@@ -134,8 +134,9 @@ theorem rollbackList_RBody (cfg : Cfg) (ts : List TxB) (w : FWorld) : RBody w (r
   induction ts generalizing w with
   | nil => exact RBody.pre.refl w
   | cons t rest ih =>
-    rw [rollbackList_snd]
-    exact RBody.pre.trans (rollbackOne_RBody cfg t w) (ih _)
+    rcases rollbackList_snd cfg t rest w with h | ⟨h, _⟩ <;> rw [h]
+    · exact RBody.pre.trans (rollbackOne_RBody cfg t w) (ih _)
+    · exact rollbackOne_RBody cfg t w
 
 theorem txRollback_RBody (cfg : Cfg) (ts : List TxB) : Rel RBody (txRollback cfg ts) := by
   intro w
@@ -362,10 +363,10 @@ theorem commitOne_Clean (cfg : Cfg) (t : TxB) : Clean cfg (commitOne cfg t) :=
 theorem rollbackOne_Clean (cfg : Cfg) (t : TxB) : Clean cfg (rollbackOne cfg t) :=
   Clean.tryFinally (Clean.pure _) (gatherUnlock_Clean _ _ _)
 
-/-- `_rollback` reports no error only if no command of it failed -/
+/-- `_rollback` returns no error only if no command of it failed -/
 theorem rollbackList_clean (cfg : Cfg) (ts : List TxB) (w : FWorld) :
     w.counter ≤ (rollbackList cfg ts w).2.counter ∧
-    ((rollbackList cfg ts w).1 = none → ∀ i, w.counter ≤ i → i < (rollbackList cfg ts w).2.counter → cfg.fails i = false) := by
+    ((rollbackList cfg ts w).1 = .ok none → ∀ i, w.counter ≤ i → i < (rollbackList cfg ts w).2.counter → cfg.fails i = false) := by
   induction ts generalizing w with
   | nil => exact ⟨Nat.le_refl _, fun _ i h1 h2 => by simp only [rollbackList] at h2; omega⟩
   | cons t rest ih =>
@@ -375,10 +376,20 @@ theorem rollbackList_clean (cfg : Cfg) (ts : List TxB) (w : FWorld) :
     obtain ⟨r, w1⟩ := p
     have h2 := ih w1
     simp only at h1 h2 ⊢
-    generalize rollbackList cfg rest w1 = q at h2
-    obtain ⟨e2, w2⟩ := q
     cases r with
-    | err e => exact ⟨Nat.le_trans h1.1 h2.1, fun h => by simp at h⟩
+    | err e =>
+      simp only
+      cases e.isBase with
+      | true =>
+        simp only [if_true]
+        cases cfg.rbAll with
+        | true => exact ⟨Nat.le_trans h1.1 h2.1, fun h => by simp at h⟩
+        | false => exact ⟨h1.1, fun h => by simp at h⟩
+      | false =>
+        simp only [Bool.false_eq_true, if_false]
+        generalize rollbackList cfg rest w1 = q at h2
+        obtain ⟨r2, w2⟩ := q
+        cases r2 <;> exact ⟨Nat.le_trans h1.1 h2.1, fun h => by simp at h⟩
     | ok a =>
       simp only at h2 ⊢
       refine ⟨Nat.le_trans h1.1 h2.1, fun hnone i hi1 hi2 => ?_⟩
@@ -391,10 +402,13 @@ theorem txRollback_Clean (cfg : Cfg) (ts : List TxB) : Clean cfg (txRollback cfg
   unfold txRollback
   have h := rollbackList_clean cfg ts w
   generalize rollbackList cfg ts w = p at h
-  obtain ⟨e, w1⟩ := p
-  cases e with
-  | some e => exact ⟨h.1, fun h' => by simp [Res.isOk] at h'⟩
-  | none => exact ⟨h.1, fun _ => h.2 rfl⟩
+  obtain ⟨r, w1⟩ := p
+  cases r with
+  | err e => exact ⟨h.1, fun h' => by simp [Res.isOk] at h'⟩
+  | ok e =>
+    cases e with
+    | some e => exact ⟨h.1, fun h' => by simp [Res.isOk] at h'⟩
+    | none => exact ⟨h.1, fun _ => h.2 rfl⟩
 
 theorem commitLoop_Clean (cfg : Cfg) (ts : List TxB) : Clean cfg (commitLoop cfg ts) := by
   induction ts with
@@ -408,7 +422,10 @@ theorem commitLoop_Clean (cfg : Cfg) (ts : List TxB) : Clean cfg (commitLoop cfg
     cases r with
     | err e =>
       simp only at h1 ⊢
-      exact ⟨Nat.le_trans h1.1 (rollbackList_clean cfg rest w1).1, fun h => by simp [Res.isOk] at h⟩
+      have h3 := (rollbackList_clean cfg rest w1).1
+      generalize rollbackList cfg rest w1 = q at h3
+      obtain ⟨r2, w2⟩ := q
+      cases r2 <;> exact ⟨Nat.le_trans h1.1 h3, fun h => by simp [Res.isOk] at h⟩
     | ok a =>
       have h2 := ih w1
       simp only at h1 h2 ⊢
